@@ -25,6 +25,9 @@ pub enum Op {
     /// `Replica::insert` with a half-empty or empty shape: 0 = empty hash with a length,
     /// 1 = a hash with length zero, 2 = empty hash and length zero (all refused: `EntryIsEmpty`)
     InsertRaw { a: usize, key: Vec<u8>, shape: u8, ts: u64 },
+    /// an entry of the author id just below (0) or just above (1) author 0's id in byte order
+    /// (hand-picked ids, stored through hook H6 without validation)
+    Neighbour { which: u8, key: Vec<u8>, c: Option<usize>, ts: u64 },
 }
 
 pub struct C02 {
@@ -69,10 +72,12 @@ pub fn gen_key(rng: &mut Rng) -> Vec<u8> {
 
 impl C02 {
     pub fn new(listed_findings: Vec<String>) -> Self {
-        C02 {
-            keys: Keys::new(1, 3),
-            listed_findings,
+        // author 0: an id ending in 0xFF when there is one (its byte-order successor needs a carry)
+        let mut keys = Keys::new(1, 3);
+        if let Some(i) = keys.authors.iter().position(|a| a.id().as_bytes()[31] == 0xFF) {
+            keys.authors.swap(0, i);
         }
+        C02 { keys, listed_findings }
     }
     fn gen_op(&self, rng: &mut Rng) -> Op {
         let a = rng.below(self.keys.authors.len());
@@ -80,6 +85,9 @@ impl C02 {
         let ts = *rng.pick(&TIMES);
         if rng.chance(1, 16) {
             return Op::InsertRaw { a, key, shape: rng.below(3) as u8, ts };
+        }
+        if rng.chance(1, 12) {
+            return Op::Neighbour { which: rng.below(2) as u8, key, c: if rng.chance(1, 4) { None } else { Some(rng.below(3)) }, ts };
         }
         match rng.below(10) {
             0..=2 => Op::Insert { a, key, c: rng.below(3), ts },
@@ -96,7 +104,7 @@ impl Property for C02 {
         "C02"
     }
     fn rule(&self) -> String {
-        "sequences of 1-12 offers (local insert, local insert of a half-empty or empty shape, prefix delete, remote insert; thorough: up to 24) by 3 authors over keys from {00,01,61,62,FE,FF}^0..3 and 4 timestamps (ties frequent), in a tenth of the cases every key behind a common 255-byte prefix (lengths 255-258), on memory and file stores; every third case is extended by a shuffled copy of (part of) itself, so duplicates and permutations occur; a case is non-trivial when at least one offer was rejected or removed another entry; distinct = distinct operation lists".into()
+        "sequences of 1-12 offers (author 0's id ends in 0xFF when the key pool has one; entries of the two author ids adjacent to it in byte order occur too; local insert, local insert of a half-empty or empty shape, prefix delete, remote insert; thorough: up to 24) by 3 authors over keys from {00,01,61,62,FE,FF}^0..3 and 4 timestamps (ties frequent), in a tenth of the cases every key behind a common 255-byte prefix (lengths 255-258), on memory and file stores; every third case is extended by a shuffled copy of (part of) itself, so duplicates and permutations occur; a case is non-trivial when at least one offer was rejected or removed another entry; distinct = distinct operation lists".into()
     }
     fn corpus(&self) -> Vec<(String, Vec<Op>)> {
         let t = |a: usize, k: &[u8], c: Option<usize>, ts: u64| Op::Remote { a, key: k.to_vec(), c, ts };
@@ -140,7 +148,7 @@ impl Property for C02 {
             // long keys: lengths 255-258, prefix relations across the 256-byte mark
             for o in ops.iter_mut() {
                 match o {
-                    Op::Insert { key, .. } | Op::InsertRaw { key, .. } | Op::Delete { key, .. } | Op::Remote { key, .. } | Op::RemoteLen { key, .. } => {
+                    Op::Insert { key, .. } | Op::InsertRaw { key, .. } | Op::Delete { key, .. } | Op::Remote { key, .. } | Op::RemoteLen { key, .. } | Op::Neighbour { key, .. } => {
                         *key = long_key(key);
                     }
                     _ => {}
@@ -179,6 +187,27 @@ impl Property for C02 {
                     drop(r);
                     rs.store.close_replica(nsid);
                     (a, key, honest_tok(&make_entry(ns, author, key, Some(*c), *ts)), res)
+                }
+                Op::Neighbour { which, key, c, ts } => {
+                    let mut id = *self.keys.authors[0].id().as_bytes();
+                    // predecessor / successor of the 32-byte id (with borrow / carry)
+                    if *which == 0 {
+                        for b in id.iter_mut().rev() {
+                            if *b == 0 { *b = 0xFF; } else { *b -= 1; break; }
+                        }
+                    } else {
+                        for b in id.iter_mut().rev() {
+                            if *b == 0xFF { *b = 0; } else { *b += 1; break; }
+                        }
+                    }
+                    let e = crate::storeops::raw_entry(&self.keys, nsid.as_bytes(), &id, key, *c, *ts);
+                    let res = rs.store.verif_put_unvalidated(e.clone())?;
+                    let imp = match res { Some(k) => format!("inserted {k}"), None => "notinserted".to_string() };
+                    lines.push(Line::model(format!("put 1 {}", stored_tok(&e)), imp));
+                    let d = dump(&mut rs.store, nsid)?;
+                    lines.push(Line::model("dump 1", d.clone()));
+                    lines.push(Line::oracle("join 1", d));
+                    continue;
                 }
                 Op::InsertRaw { a, key, shape, ts } => {
                     let author = &self.keys.authors[*a];
@@ -264,6 +293,7 @@ impl Property for C02 {
                 Op::Open { .. } => continue,
                 Op::Insert { .. } => "op:insert",
                 Op::InsertRaw { .. } => "op:insert-half-empty",
+                Op::Neighbour { .. } => "op:neighbour-author",
                 Op::Delete { .. } => "op:delete-prefix",
                 Op::Remote { c: Some(_), .. } => "op:remote-live",
                 Op::Remote { c: None, .. } => "op:remote-marker",
